@@ -341,6 +341,21 @@ def real_bytes(chk: core.Check, thorough: bool):
             chk.count(3, key=f"concatenate-{brn}")
             if not same_nested(cat[fld].tolist(), want.tolist()):
                 chk.failing_input("uproot.concatenate of several files", {"files": [a.name, b.name, a.name], "branch": brn}, f"{len(cat)} entries", f"{len(want)} entries", "several files at once return the concatenation of the individual reads")
+            # the library's own multi-file entry point (deprecated alias of uproot.concatenate): same ordered list, a file named more than once
+            import warnings
+            with warnings.catch_warnings():
+                warnings.simplefilter("ignore")
+                try:
+                    pc = pybes3.concatenate([{str(a): "Event"}, {str(b): "Event"}, {str(a): "Event"}, {str(a): "Event"}], filter_name=brn.split("/")[-1])
+                    want4 = ak.concatenate([x, y, x, x])
+                    okp = same_nested(pc[pc.fields[0]].tolist(), want4.tolist())
+                    gotp = f"{len(pc)} entries"
+                except Exception as ex:
+                    okp, gotp = False, f"{type(ex).__name__}: {str(ex)[:200]}"
+            chk.count(4, key=f"pybes3.concatenate-{brn}")
+            if not okp:
+                chk.failing_input("pybes3.concatenate of an ordered list of files (a file named more than once)", {"files": [a.name, b.name, a.name, a.name], "branch": brn}, gotp, f"{len(x) * 3 + len(y)} entries: the concatenation of the individual reads",
+                                  "several files at once return the concatenation of the individual reads, for every ordered list of files")
     chk.coverage["fixture_branches_repartitioned"] = n_br
 
 
